@@ -29,9 +29,9 @@ const (
 var ErrGlobalNotFound = errors.New("global not found")
 
 type VirtualMachine struct {
-	ip           int // instruction pointer
-	sp           int // stack pointer
-	fp           int // frame pointer
+	ip           int    // instruction pointer
+	sp           int    // stack pointer
+	fp           int    // frame pointer
 	halt         *int32 // halt flag of the current run, shared with clones
 	startCount   int64
 	activeFrame  *frame
@@ -40,6 +40,7 @@ type VirtualMachine struct {
 	importer     importer.Importer
 	os           os.OS
 	modules      map[string]*object.Module
+	importing    map[string]bool // modules whose code is being evaluated by an import
 	inputGlobals map[string]any
 	globals      map[string]object.Object
 	loadedCode   map[*compiler.Code]*code
@@ -1037,6 +1038,16 @@ func (vm *VirtualMachine) importModule(ctx context.Context, name string) (*objec
 	if vm.importer == nil {
 		return nil, fmt.Errorf("imports are disabled")
 	}
+	// A module that (directly or indirectly) imports itself would be evaluated
+	// again and again until the frame stack overflows
+	if vm.importing[name] {
+		return nil, fmt.Errorf("import error: import cycle detected: %q", name)
+	}
+	if vm.importing == nil {
+		vm.importing = map[string]bool{}
+	}
+	vm.importing[name] = true
+	defer delete(vm.importing, name)
 	module, err := vm.importer.Import(ctx, name)
 	if err != nil {
 		return nil, err
